@@ -1,6 +1,10 @@
 import Tau.Properties.C06
 import Tau.Properties.C01
 import Tau.Mapping
+import Tau.Properties.C07
+import Tau.Proofs.Batch
+import Tau.Proofs.Shake0
+import Tau.Proofs.MappingShake
 /-
   C02 — Verdicts follow the documented rule language (partial).
 
@@ -10,7 +14,9 @@ import Tau.Mapping
   `sequence_is_or`), and the leaf predicates (C07 strings, C09 numbers, C10 paths, C08 quantifiers).
   The independent reference interpreter that works from the YAML text and the document value is the
   Rust oracle of the C02 check; its Lean counterpart below covers the condition layer and the
-  identifier shapes. Not proved: a single end-to-end `load_refines_spec` over YAML values.
+  identifier shapes; `identifier_refines` (end of file) is the end-to-end statement for identifier
+  bodies without all()/of() keys: the parsed tree evaluates to a denotational semantics defined by
+  recursion on the YAML value.
 -/
 set_option linter.unusedSimpArgs false
 namespace Tau.C02
@@ -114,4 +120,485 @@ theorem absent_field_missing (E : RegexEngine) (K : IdentK) (d : Doc) (f : Str) 
 theorem only_true_matches (E : RegexEngine) (ids : Ids) (d : Doc) (e : Expr) :
     matchesTop E ids d e = true ↔ solveTop E ids d e = .t := C06.verdict_iff E ids d e
 
+end Tau.C02
+
+namespace Tau.C02
+open Tau
+
+/-! ### A denotational semantics of identifier bodies, and the parser refines it -/
+
+/-- The documented meaning of a nested mapping under key `f`: missing if the field is absent; the
+    body on the object; "some element satisfies it" on an array; false on anything else. -/
+def nestedSem (f : Str) (body : Doc → Tri) (d : Doc) : Tri :=
+  match d.find f with
+  | none => .m
+  | some (.obj kvs) => body (.obj kvs)
+  | some (.arr a) => Tri.ofBool ((elemObjs a).any (fun kvs => body (.obj kvs) == .t))
+  | some _ => .f
+
+def notTri (misc : Option ModSym) (t : Tri) : Tri := if misc == some .not then t.not else t
+
+def isMatchE : Expr → Bool
+  | .match _ _ => true
+  | _ => false
+
+section
+variable (E : RegexEngine) (ic : Bool) (K : IdentK)
+
+/-- A scalar under a key: the leaf predicate (strings: C07, numbers: C09, paths: C10). -/
+def atomSem (e : Expr) (f : Str) (misc : Option ModSym) (v : Yaml) (d : Doc) : Tri :=
+  match parseVal E ic e f misc v with
+  | .ok x => solveG E K d x
+  | .error _ => .m
+
+mutual
+/-- Entries of a mapping, in written order. -/
+def semEntries : List (Yaml × Yaml) → Doc → List Tri
+  | [], _ => []
+  | p :: rest, d => semPair p d :: semEntries rest d
+def semPair : Yaml × Yaml → Doc → Tri
+  | (k, v), d =>
+    match parseKey k v.isSeq with
+    | .error _ => .m
+    | .ok (e, f, misc) => semVal e f misc v d
+/-- A value under a key: a nested mapping, a list (the `or` of its members), or a leaf. -/
+def semVal (e : Expr) (f : Str) (misc : Option ModSym) : Yaml → Doc → Tri
+  | .map m, d => notTri misc (nestedSem f (fun d' => Tri.and (semEntries m d')) d)
+  | .seq s, d => notTri misc (Tri.or (semMembers e f misc s d))
+  | .null, d => atomSem E ic K e f misc .null d
+  | .bool b, d => atomSem E ic K e f misc (.bool b) d
+  | .num n, d => atomSem E ic K e f misc (.num n) d
+  | .str s, d => atomSem E ic K e f misc (.str s) d
+  | .tagged y, d => atomSem E ic K e f misc (.tagged y) d
+/-- Members of a list, one at a time. -/
+def semMembers (e : Expr) (f : Str) (misc : Option ModSym) : List Yaml → Doc → List Tri
+  | [], _ => []
+  | .map m :: vs, d => nestedSem f (fun d' => Tri.and (semEntries m d')) d :: semMembers e f misc vs d
+  | v :: vs, d => V E K d (memberAlone E ic f misc (unmatchedOf e) v) :: semMembers e f misc vs d
+end
+
+/-- An identifier: a mapping (conjunction of its entries) or a sequence of mappings (disjunction). -/
+def semIdent : Yaml → Doc → Tri
+  | .map m, d => Tri.and (semEntries E ic K m d)
+  | .seq ys, d => Tri.or (ys.map (fun y => match y with | .map m => Tri.and (semEntries E ic K m d) | _ => .m))
+  | _, _ => .m
+
+end
+
+namespace Tau.C02
+open Tau
+
+theorem solve_wrapNot (E : RegexEngine) (K : IdentK) (d : Doc) (misc : Option ModSym) (x : Expr) :
+    solveG E K d (wrapNot misc x) = notTri misc (solveG E K d x) := by
+  unfold wrapNot notTri
+  split <;> simp [solveG]
+
+theorem isMatch_wrapNot (misc : Option ModSym) (x : Expr) (h : isMatchE x = false) :
+    isMatchE (wrapNot misc x) = false := by
+  unfold wrapNot; split
+  · rfl
+  · exact h
+
+theorem shapeGroup_value (E : RegexEngine) (K : IdentK) (d : Doc) (e g : Expr) (gs : List Expr) (m : Bool)
+    (he : isMatchE e = false) : solveG E K d (shapeGroup e g gs m) = V E K d (g :: gs) := by
+  unfold shapeGroup V
+  cases e <;> simp [isMatchE] at he <;> simp only []
+  all_goals
+    split
+    · rename_i h
+      have : gs = [] := by
+        cases gs with
+        | nil => rfl
+        | cons _ _ => simp at h
+      subst this
+      simp only [List.map_cons, List.map_nil]
+      cases solveG E K d g <;> rfl
+    · simp only [solveG, orG_eq, listG_eq_map]
+
+theorem shapeGroup_notMatch (e g : Expr) (gs : List Expr) (m : Bool)
+    (he : isMatchE e = false) (hg : isMatchE g = false) : isMatchE (shapeGroup e g gs m) = false := by
+  unfold shapeGroup
+  cases e <;> simp [isMatchE] at he <;> simp only [] <;> split <;> first | exact hg | rfl
+
+/-- A list under any non-quantifier key: the `or` of its members taken one at a time, negated
+    under `not(k)`. -/
+theorem list_value (E : RegexEngine) (ic : Bool) (e : Expr) (f : Str) (misc : Option ModSym) (s : List Yaml)
+    (x : Expr) (he : isMatchE e = false)
+    (h : parseVal E ic e f misc (.seq s) = .ok x) (K : IdentK) (d : Doc) :
+    solveG E K d x =
+      notTri misc (Tri.or (s.map (fun v => V E K d (memberAlone E ic f misc (unmatchedOf e) v)))) := by
+  simp only [parseVal] at h
+  split at h
+  · cases h
+  · rename_i st hst
+    have hst' : parseMembers E ic f misc (unmatchedOf e) s { cast := misc == some ModSym.str } = .ok st := by
+      cases e <;> first | (simp [isMatchE] at he; done) | exact hst
+    clear hst
+    have hst := hst'
+    have hwf : st.WF := parseMembers_wf E ic f misc (unmatchedOf e) s _ st hst (wf_empty _)
+    unfold shapeSeq at h
+    split at h
+    · cases h
+    · split at h
+      · cases h
+      · rename_i g gs hg
+        cases h
+        rw [solve_wrapNot, shapeGroup_value E K d e g gs _ he, ← hg, batch_or E K d st hwf f]
+        rw [members_or E K d ic f misc (unmatchedOf e) s st hst]
+
+
+theorem nested_value (E : RegexEngine) (K : IdentK) (d : Doc) (f : Str) (x : Expr) (hx : isMatchE x = false) :
+    solveG E K d (.nested f x) = nestedSem f (fun d' => solveG E K d' x) d := by
+  have hs : nestedSpecial x = false := by cases x <;> simp [isMatchE] at hx <;> rfl
+  rw [nested_generic E K d f x hs]
+  rfl
+
+theorem finish_value (E : RegexEngine) (K : IdentK) (es : List Expr) (x : Expr)
+    (h : finishMapping (.ok es) = .ok x) (hm : ∀ e ∈ es, isMatchE e = false) :
+    (∀ d, solveG E K d x = Tri.and (es.map (solveG E K d))) ∧ isMatchE x = false := by
+  match es, h with
+  | [a], h =>
+    simp [finishMapping] at h; subst h
+    exact ⟨fun d => by simp only [List.map_cons, List.map_nil]; cases solveG E K d a <;> rfl, hm a (by simp)⟩
+  | a :: b :: r, h =>
+    simp [finishMapping] at h; subst h
+    exact ⟨fun d => C06.solve_group_and E K d _, rfl⟩
+
+theorem notMatch_wrap_search (misc : Option ModSym) (s : Search) (f : Str) (c : Bool) :
+    isMatchE (wrapNot misc (.search s f c)) = false := isMatch_wrapNot _ _ rfl
+theorem notMatch_wrap_bin (misc : Option ModSym) (l : Expr) (op : BoolSym) (r : Expr) :
+    isMatchE (wrapNot misc (.bin l op r)) = false := isMatch_wrapNot _ _ rfl
+
+/-- Scalar entries are never all()/of() nodes. -/
+theorem scalar_notMatch (E : RegexEngine) (ic : Bool) (e : Expr) (f : Str) (misc : Option ModSym) (v : Yaml)
+    (x : Expr) (hv : ∀ m, v ≠ .map m) (hs : ∀ s, v ≠ .seq s) (h : parseVal E ic e f misc v = .ok x) :
+    isMatchE x = false := by
+  cases v with
+  | map m => exact absurd rfl (hv m)
+  | seq s => exact absurd rfl (hs s)
+  | tagged y => simp [parseVal] at h
+  | null => simp only [parseVal] at h; cases h; exact notMatch_wrap_bin _ _ _ _
+  | bool b =>
+    simp only [parseVal] at h; cases h
+    apply isMatch_wrapNot
+    split
+    · rfl
+    · split <;> rfl
+  | num n =>
+    cases n with
+    | int i =>
+      simp only [parseVal] at h; cases h
+      apply isMatch_wrapNot
+      split <;> rfl
+    | big a b c =>
+      simp only [parseVal] at h
+      split at h
+      · cases h
+      · split at h <;> cases h <;> apply isMatch_wrapNot <;> rfl
+    | flt b c =>
+      simp only [parseVal] at h
+      split at h
+      · cases h
+      · split at h <;> cases h <;> apply isMatch_wrapNot <;> rfl
+  | str s =>
+    simp only [parseVal] at h
+    cases hid : intoIdentifier E ic s with
+    | error err => rw [hid] at h; cases h
+    | ok ident =>
+      rw [hid] at h
+      simp only at h
+      cases hcc : castCheck misc ident.pat with
+      | error err => rw [hcc] at h; cases h
+      | ok u =>
+        rw [hcc] at h
+        simp only at h
+        cases hp : ident.pat <;> simp only [hp, numExpr, searchOfPattern] at h <;>
+          first
+            | (cases h; exact isMatch_wrapNot _ _ rfl)
+            | (split at h <;> cases h <;> exact isMatch_wrapNot _ _ rfl)
+
+
+/-! #### The fragment: no all()/of() keys -/
+
+mutual
+def nqEntries : List (Yaml × Yaml) → Bool
+  | [] => true
+  | p :: rest => nqPair p && nqEntries rest
+def nqPair : Yaml × Yaml → Bool
+  | (k, v) =>
+    (match parseKey k v.isSeq with
+     | .ok (e, _, _) => !isMatchE e
+     | .error _ => true) && nqVal v
+def nqVal : Yaml → Bool
+  | .map m => nqEntries m
+  | .seq s => nqMembers s
+  | _ => true
+def nqMembers : List Yaml → Bool
+  | [] => true
+  | .map m :: vs => nqEntries m && nqMembers vs
+  | _ :: vs => nqMembers vs
+end
+
+def nqIdent : Yaml → Bool
+  | .map m => nqEntries m
+  | .seq ys => ys.all (fun y => match y with | .map m => nqEntries m | _ => true)
+  | _ => true
+
+theorem member_notMatch {g : Expr} (h : Member g) : isMatchE g = false := by
+  cases g <;> first | rfl | (have := h.2.2.1; simp [mayBecomeMatch] at this)
+
+/-- Every member must have been accepted for the loop to succeed. -/
+theorem parseMembers_ok_members (E : RegexEngine) (ic : Bool) (f : Str) (misc : Option ModSym) (lhs : Expr) :
+    ∀ (vs : List Yaml) (st st' : SeqSt), st.cast = (misc == some .str) →
+      parseMembers E ic f misc lhs vs st = .ok st' →
+      ∀ v ∈ vs, ∃ δ, memberDelta E ic f misc lhs (misc == some .str) v = .ok δ
+  | [], _, _, _, _ => by intro v hv; cases hv
+  | v :: vs, st, st', hc, h => by
+    rw [parseMembers_step E ic f misc lhs v vs st hc] at h
+    cases hδ : memberDelta E ic f misc lhs st.cast v with
+    | error e => rw [hδ] at h; cases h
+    | ok δ =>
+      rw [hδ] at h
+      simp only at h
+      intro w hw
+      rcases List.mem_cons.mp hw with rfl | hw'
+      · exact ⟨δ, by rw [← hc]; exact hδ⟩
+      · exact parseMembers_ok_members E ic f misc lhs vs (st.add δ) st' hc h w hw'
+
+
+section
+variable (E : RegexEngine) (ic : Bool) (K : IdentK)
+
+/-- What the refinement says about a list of parsed entries. -/
+def EntriesOK (kvs : List (Yaml × Yaml)) (es : List Expr) : Prop :=
+  (∀ d, es.map (solveG E K d) = semEntries E ic K kvs d) ∧ (∀ x ∈ es, isMatchE x = false)
+
+mutual
+theorem entries_sem : ∀ (kvs : List (Yaml × Yaml)) (es : List Expr),
+    parseEntries E ic kvs = .ok es → nqEntries kvs = true → EntriesOK E ic K kvs es
+  | [], es, h, _ => by
+    simp [parseEntries] at h; subst h
+    exact ⟨fun d => by simp [semEntries], fun x hx => by cases hx⟩
+  | p :: rest, es, h, hq => by
+    simp only [parseEntries] at h
+    simp only [nqEntries, Bool.and_eq_true] at hq
+    split at h
+    · cases h
+    · rename_i x hx
+      split at h
+      · cases h
+      · rename_i xs hxs
+        cases h
+        obtain ⟨h1, h2⟩ := pair_sem p x hx hq.1
+        obtain ⟨h3, h4⟩ := entries_sem rest xs hxs hq.2
+        refine ⟨fun d => ?_, fun y hy => ?_⟩
+        · simp only [List.map_cons, semEntries, h1 d, h3 d]
+        · rcases List.mem_cons.mp hy with rfl | hy'
+          · exact h2
+          · exact h4 y hy'
+
+theorem pair_sem : ∀ (p : Yaml × Yaml) (x : Expr), parsePair E ic p = .ok x → nqPair p = true →
+    (∀ d, solveG E K d x = semPair E ic K p d) ∧ isMatchE x = false
+  | (k, v), x, h, hq => by
+    simp only [parsePair] at h
+    simp only [nqPair, Bool.and_eq_true] at hq
+    cases hk : parseKey k v.isSeq with
+    | error err => rw [hk] at h; cases h
+    | ok r =>
+      obtain ⟨e, f, misc⟩ := r
+      rw [hk] at h hq
+      simp only [Bool.not_eq_true'] at hq
+      have hleaf := parseKey_leaf k v.isSeq e f misc hk
+      obtain ⟨h1, h2⟩ := val_sem e f misc hq.1 hleaf.2 v x h hq.2
+      refine ⟨fun d => ?_, h2⟩
+      simp only [semPair, hk]
+      exact h1 d
+
+theorem val_sem (e : Expr) (f : Str) (misc : Option ModSym) (he : isMatchE e = false)
+    (hleaf : isLeafE (unmatchedOf e) = true) :
+    ∀ (v : Yaml) (x : Expr), parseVal E ic e f misc v = .ok x → nqVal v = true →
+      (∀ d, solveG E K d x = semVal E ic K e f misc v d) ∧ isMatchE x = false
+  | .null, x, h, _ =>
+    ⟨fun d => by simp only [semVal, atomSem, h], scalar_notMatch E ic e f misc _ x (by simp) (by simp) h⟩
+  | .bool b, x, h, _ =>
+    ⟨fun d => by simp only [semVal, atomSem, h], scalar_notMatch E ic e f misc _ x (by simp) (by simp) h⟩
+  | .num n, x, h, _ =>
+    ⟨fun d => by simp only [semVal, atomSem, h], scalar_notMatch E ic e f misc _ x (by simp) (by simp) h⟩
+  | .str s, x, h, _ =>
+    ⟨fun d => by simp only [semVal, atomSem, h], scalar_notMatch E ic e f misc _ x (by simp) (by simp) h⟩
+  | .tagged y, x, h, _ => by simp [parseVal] at h
+  | .map m, x, h, hq => by
+    simp only [parseVal] at h
+    simp only [nqVal] at hq
+    split at h
+    · cases h
+    · cases hes : parseEntries E ic m with
+      | error err => rw [hes] at h; simp [finishMapping] at h
+      | ok es =>
+        rw [hes] at h
+        obtain ⟨h1, h2⟩ := entries_sem m es hes hq
+        cases hfin : finishMapping (.ok es) with
+        | error err => rw [hfin] at h; cases h
+        | ok y =>
+          rw [hfin] at h
+          cases h
+          obtain ⟨hv, hm⟩ := finish_value E K es y hfin h2
+          refine ⟨fun d => ?_, isMatch_wrapNot _ _ rfl⟩
+          rw [solve_wrapNot, nested_value E K d f y hm]
+          simp only [semVal]
+          congr 2
+          funext d'
+          rw [hv d', h1 d']
+  | .seq s, x, h, hq => by
+    simp only [nqVal] at hq
+    have hval := list_value E ic e f misc s x he h K
+    -- the batch group holds no all()/of() node
+    have hnm : isMatchE x = false := by
+      simp only [parseVal] at h
+      split at h
+      · cases h
+      · rename_i st hst
+        have hst' : parseMembers E ic f misc (unmatchedOf e) s { cast := misc == some ModSym.str } = .ok st := by
+          cases e <;> first | (simp [isMatchE] at he; done) | exact hst
+        have hrest : MemberAll st.rest :=
+          members_member E ic f misc _ hleaf s _ st hst' (by intro e he; cases he)
+        have hall := batchMembers_member st f hrest
+        unfold shapeSeq at h
+        split at h
+        · cases h
+        · split at h
+          · cases h
+          · rename_i g gs hg
+            cases h
+            apply isMatch_wrapNot
+            apply shapeGroup_notMatch e g gs _ he
+            exact member_notMatch (hall g (by rw [hg]; simp))
+    refine ⟨fun d => ?_, hnm⟩
+    rw [hval d]
+    simp only [semVal]
+    congr 2
+    -- member by member
+    have hok : ∀ v ∈ s, ∃ δ, memberDelta E ic f misc (unmatchedOf e) (misc == some .str) v = .ok δ := by
+      simp only [parseVal] at h
+      split at h
+      · cases h
+      · rename_i st hst
+        have hst' : parseMembers E ic f misc (unmatchedOf e) s { cast := misc == some ModSym.str } = .ok st := by
+          cases e <;> first | (simp [isMatchE] at he; done) | exact hst
+        exact parseMembers_ok_members E ic f misc (unmatchedOf e) s _ st rfl hst'
+    exact members_sem e f misc s hq hok d
+
+theorem members_sem (e : Expr) (f : Str) (misc : Option ModSym) :
+    ∀ (vs : List Yaml), nqMembers vs = true →
+      (∀ v ∈ vs, ∃ δ, memberDelta E ic f misc (unmatchedOf e) (misc == some .str) v = .ok δ) →
+      ∀ d, vs.map (fun v => V E K d (memberAlone E ic f misc (unmatchedOf e) v)) = semMembers E ic K e f misc vs d
+  | [], _, _, d => by simp [semMembers]
+  | v :: vs, hq, hok, d => by
+    have htail : ∀ (hq' : nqMembers vs = true), vs.map (fun v => V E K d (memberAlone E ic f misc (unmatchedOf e) v)) =
+        semMembers E ic K e f misc vs d :=
+      fun hq' => members_sem e f misc vs hq' (fun w hw => hok w (by simp [hw])) d
+    cases v with
+    | map m =>
+      simp only [nqMembers, Bool.and_eq_true] at hq
+      simp only [List.map_cons, semMembers, htail hq.2]
+      congr 1
+      obtain ⟨δ, hδ⟩ := hok (.map m) (by simp)
+      simp only [memberDelta] at hδ
+      split at hδ
+      · cases hδ
+      · rename_i hmisc
+        cases hes : parseEntries E ic m with
+        | error err => rw [hes] at hδ; simp [finishMapping] at hδ
+        | ok es =>
+          rw [hes] at hδ
+          cases hfin : finishMapping (.ok es) with
+          | error err => rw [hfin] at hδ; cases hδ
+          | ok y =>
+            obtain ⟨h1, h2⟩ := entries_sem m es hes hq.1
+            obtain ⟨hv, hm⟩ := finish_value E K es y hfin h2
+            have hma : memberAlone E ic f misc (unmatchedOf e) (.map m) = [.nested f y] := by
+              simp only [memberAlone, memberDelta, hmisc, Bool.false_eq_true, if_false, hes, hfin]
+              rfl
+            rw [hma]
+            have : V E K d [.nested f y] = solveG E K d (.nested f y) := by
+              unfold V; simp only [List.map_cons, List.map_nil]
+              cases solveG E K d (.nested f y) <;> rfl
+            rw [this, nested_value E K d f y hm]
+            congr 1
+            funext d'
+            rw [hv d', h1 d']
+    | null => simp only [nqMembers] at hq; simp only [List.map_cons, semMembers, htail hq]
+    | bool b => simp only [nqMembers] at hq; simp only [List.map_cons, semMembers, htail hq]
+    | num n => simp only [nqMembers] at hq; simp only [List.map_cons, semMembers, htail hq]
+    | str s => simp only [nqMembers] at hq; simp only [List.map_cons, semMembers, htail hq]
+    | seq xs => simp only [nqMembers] at hq; simp only [List.map_cons, semMembers, htail hq]
+    | tagged y => simp only [nqMembers] at hq; simp only [List.map_cons, semMembers, htail hq]
+end
+
+end
+
+section
+variable (E : RegexEngine) (ic : Bool) (K : IdentK)
+
+theorem mapping_sem (m : List (Yaml × Yaml)) (x : Expr) (h : parseMapping E ic m = .ok x)
+    (hq : nqEntries m = true) : ∀ d, solveG E K d x = Tri.and (semEntries E ic K m d) := by
+  unfold parseMapping at h
+  cases hes : parseEntries E ic m with
+  | error err => rw [hes] at h; simp [finishMapping] at h
+  | ok es =>
+    rw [hes] at h
+    obtain ⟨h1, h2⟩ := entries_sem E ic K m es hes hq
+    obtain ⟨hv, _⟩ := finish_value E K es x h h2
+    intro d
+    rw [hv d, h1 d]
+
+theorem go_sem : ∀ (ys : List Yaml) (es : List Expr), parseIdentifier.go E ic ys = .ok es →
+    (ys.all (fun y => match y with | .map m => nqEntries m | _ => true)) = true →
+    ∀ d, es.map (solveG E K d) =
+      ys.map (fun y => match y with | .map m => Tri.and (semEntries E ic K m d) | _ => .m)
+  | [], es, h, _, d => by simp [parseIdentifier.go] at h; subst h; rfl
+  | y :: rest, es, h, hq, d => by
+    cases y with
+    | map m =>
+      simp only [parseIdentifier.go] at h
+      simp only [List.all_cons, Bool.and_eq_true] at hq
+      split at h
+      · cases h
+      · rename_i x hx
+        split at h
+        · cases h
+        · rename_i xs hxs
+          cases h
+          simp only [List.map_cons]
+          rw [mapping_sem E ic K m x hx hq.1 d, go_sem rest xs hxs hq.2 d]
+    | _ => simp [parseIdentifier.go] at h
+
+/-- **The parser refines the documented meaning of identifiers.** For every identifier value
+    without all()/of() keys that `parse_identifier` accepts, the three-valued result of the parsed
+    expression on every document is the denotational semantics: a mapping is the conjunction of its
+    entries in written order, a sequence of mappings their disjunction, a list under a key the
+    disjunction of its members taken one at a time (whatever gets batched), a nested mapping is the
+    body on the object / "some element" on an array, `not(k)` negates, and a scalar under a key is
+    the leaf predicate. -/
+theorem identifier_refines (y : Yaml) (e : Expr) (h : parseIdentifier E ic y = .ok e)
+    (hq : nqIdent y = true) : ∀ d, solveG E K d e = semIdent E ic K y d := by
+  cases y with
+  | map m =>
+    intro d
+    exact mapping_sem E ic K m e (by simpa [parseIdentifier] using h) hq d
+  | seq ys =>
+    cases ys with
+    | nil => simp [parseIdentifier] at h
+    | cons a r =>
+      simp only [parseIdentifier] at h
+      split at h
+      · cases h
+      · rename_i es hes
+        cases h
+        intro d
+        rw [C06.solve_group_or, go_sem E ic K (a :: r) es hes hq d]
+        rfl
+  | _ => simp [parseIdentifier] at h
+
+end
 end Tau.C02
